@@ -25,6 +25,9 @@ type c40notifier struct {
 
 func (n *c40notifier) Notify(key string, data interface{}) error {
 	*n.log = append(*n.log, c40rec{n.id, key, data.(int)})
+	// delivering to a subscriber is a call into another component (an RPC notifier, a
+	// channel send): the publisher can be descheduled here
+	vsched.Point("notify")
 	return nil
 }
 func (n *c40notifier) Err() <-chan error { return n.err }
@@ -217,4 +220,94 @@ func regsKey(rs []*c40reg) string {
 		k += fmt.Sprintf("%d:%s:%v;", r.n, r.key, r.settled)
 	}
 	return k
+}
+
+// TestVerifC40Concurrent: a publication racing with a subscriber's leave, over settled
+// registration lists in which the leaving subscriber sits before, between or after others.
+func TestVerifC40Concurrent(t *testing.T) {
+	maxDev := mc.Pick(2, 3)
+	menus := [][]int{{0, 1, 2}, {0, 0, 1}, {1, 0, 2}, {0, 1, 1}, {1, 2, 0}, {0, 1}, {1, 0, 0, 2}}
+	mc.Run(t, mc.Config{ID: "C40", Name: "C40-publish-vs-leave", MaxDev: maxDev, ShardLevels: 3, Params: map[string]interface{}{
+		"delay_bound": maxDev, "registration_lists_on_one_key": fmt.Sprint(menus), "threads": "T1: Publish(m1) | T2: notifier 0 leaves (close of its error channel); then settle and Publish(m2)",
+		"notify_is_scheduling_point": true}},
+		func(x *mc.X) {
+			regs := menus[x.Choose(len(menus))]
+			twoPubs := x.Bool()
+			x.Logf("registrations %v twoPublishers=%v", regs, twoPubs)
+			var log []c40rec
+			count := func(from, to, n, msg int) int {
+				c := 0
+				for _, g := range log[from:to] {
+					if g.n == n && g.msg == msg {
+						c++
+					}
+				}
+				return c
+			}
+			nregs := map[int]int{}
+			for _, n := range regs {
+				nregs[n]++
+			}
+			var mark1 int
+			verdict := vsched.Run(x, vsched.Options{MaxSteps: 5000, DelayBounded: true}, func(s *vsched.S) {
+				sp := NewSubPub()
+				ns := []*c40notifier{{id: 0, err: make(chan error), log: &log}, {id: 1, err: make(chan error), log: &log}, {id: 2, err: make(chan error), log: &log}}
+				for _, n := range regs {
+					_ = sp.Subscribe(ns[n], "ns", "k", "")
+				}
+				s.Quiesce() // every registration has taken effect
+				s.Go("publisher", func() { _ = sp.Publish("ns", "k", "", 1) })
+				if twoPubs {
+					s.Go("publisher2", func() { _ = sp.Publish("ns", "k", "p", 3) })
+				}
+				s.Go("leaver", func() { vsched.Close(ns[0].err) })
+				s.Quiesce()
+				mark1 = len(log)
+				_ = sp.Publish("ns", "k", "", 2)
+				if s.Preemptions() > 0 {
+					x.Nontrivial()
+				}
+			})
+			if verdict != "" {
+				x.Fail("deadlock", "scheduler verdict %s", verdict)
+			}
+			x.Logf("deliveries %v", log)
+			msgs := []int{1}
+			if twoPubs {
+				msgs = append(msgs, 3)
+			}
+			for n := 1; n <= 2; n++ {
+				if nregs[n] == 0 {
+					for _, m := range append(msgs, 2) {
+						if count(0, len(log), n, m) > 0 {
+							x.Fail("notified-without-registration", "notifier %d never subscribed but got msg%d", n, m)
+						}
+					}
+					continue
+				}
+				for _, m := range msgs {
+					c := count(0, mark1, n, m)
+					if c < 1 {
+						x.Fail("missed-message", "notifier %d (registered %d time(s), never left) did not get msg%d published while notifier 0 was leaving; registrations %v", n, nregs[n], m, regs)
+					}
+					if c > nregs[n] {
+						x.Fail("duplicate-message", "notifier %d registered %d time(s) but got msg%d %d times while notifier 0 was leaving; registrations %v", n, nregs[n], m, c, regs)
+					}
+				}
+				c := count(mark1, len(log), n, 2)
+				if c < 1 || c > nregs[n] {
+					x.Fail("final-count", "after settling, notifier %d (registered %d time(s)) got msg2 %d time(s)", n, nregs[n], c)
+				}
+			}
+			for _, m := range msgs {
+				if c := count(0, mark1, 0, m); c > nregs[0] {
+					x.Fail("duplicate-message", "leaving notifier 0 registered %d time(s) but got msg%d %d times", nregs[0], m, c)
+				}
+			}
+			if c := count(mark1, len(log), 0, 2); c > 0 {
+				x.Fail("notified-after-leave", "notifier 0 left (system settled since) but got msg2 %d time(s)", c)
+			}
+			x.Outcome(fmt.Sprintf("%v", log))
+			x.State(fmt.Sprintf("%v|%v", regs, log))
+		})
 }
